@@ -82,7 +82,8 @@ info('C04',
      'negative indices as errors), the compiled kernels _make_stride (both styles), _iter_common_sorted_push (same sound/ordered/'
      'complete clauses as np_conserved._iter_common_sorted, proved under C01), _make_valid_charges_1D (C remainder + correction '
      '== Python/numpy modulo; nonlinear lemma proved by cvc5 in the same run), _map_blocks (blocks tile the result; monotonicity '
-     'lemma proved by induction in the same run). A failing obligation starts a witness hunt on the freshly compiled extension. '
+     'lemma proved by induction in the same run), _find_row_differences (2-D buffer as ghost container, every access inside the buffer; '
+     'exactly the places where consecutive rows differ, [0, L] without columns, [0] without rows). A failing obligation starts a witness hunt on the freshly compiled extension. '
      'B (bounded, not proof): every operation program of C01 executed with identical seeds in two interpreter processes '
      '(extension rebuilt from the current _npc_helper.pyx / TENPY_NO_CYTHON=1), results compared field by field; both processes '
      'report which implementation is active. The compiled side of C01/C02/C03/C05/C06 is likewise always a fresh build.',
